@@ -161,6 +161,8 @@ class CoapAccessory:
             self.n_sessions += 1
             items, shared, acc_pub = hap.pv_m2(self.ident, C.det_bytes(self.seed, f"acc-eph|{self.n_sessions}"), ios_pub)
             self.pv = (shared, acc_pub, ios_pub)
+            if getattr(self, "verify_reply_edit", None):
+                items = self.verify_reply_edit(items)
             return tlv8.encode(items)
         if st == b"\x03" and self.pv:
             shared, acc_pub, ios_pub = self.pv
